@@ -8,7 +8,6 @@ type tagCycleValue struct {
 type tagCycleNode struct {
 	position *Token
 	args     []IEvaluator
-	idx      int
 	asName   string
 	silent   bool
 }
@@ -17,9 +16,16 @@ func (cv *tagCycleValue) String() string {
 	return cv.value.String()
 }
 
+// nextIndex returns how often the node was executed before during the current
+// execution (the position in the cycle) and advances it.
+func (node *tagCycleNode) nextIndex(ctx *ExecutionContext) int {
+	idx, _ := ctx.state()[node].(int)
+	ctx.state()[node] = idx + 1
+	return idx
+}
+
 func (node *tagCycleNode) Execute(ctx *ExecutionContext, writer TemplateWriter) *Error {
-	item := node.args[node.idx%len(node.args)]
-	node.idx++
+	item := node.args[node.nextIndex(ctx)%len(node.args)]
 
 	val, err := item.Evaluate(ctx)
 	if err != nil {
@@ -31,8 +37,7 @@ func (node *tagCycleNode) Execute(ctx *ExecutionContext, writer TemplateWriter) 
 		// {% cycle cycleitem %}
 
 		// Update the cycle value with next value
-		item := t.node.args[t.node.idx%len(t.node.args)]
-		t.node.idx++
+		item := t.node.args[t.node.nextIndex(ctx)%len(t.node.args)]
 
 		val, err := item.Evaluate(ctx)
 		if err != nil {
